@@ -39,6 +39,12 @@ CLAIMED = {
          "TLA+ key stream + FNV model; TLC validates both hashers on trees and their mutants"),
  "C19": ("5.C19", "Subtrees/DirectNames in TLA+ (laws model-checked); for every tree of the C15 population all_used_types (as a set) must equal Subtrees(tree), rendering must terminate, Display = to_pseudocode, and a top-level struct/enum must mention its name and its direct field/variant names; panics are events no action matches.",
          "TLA+ subtree/name functions; TLC validates recorded inspection results"),
+ "C12": ("5.C12", "MaxSize.tla: structural SupLen(shape) incl. fixed-capacity containers, itself model-checked equal to the maximum of Len(Enc) over maximum-containing value domains (MC_MaxSize). One event per implementing type (82 types incl. every built-in impl, heapless capacities 0/1/127/128/16383/16384, the repository's derive on structs/generics/enums with 1..129 variants): declared >= SupLen, every maximising sample fits, and declared = SupLen = attained for the kinds claimed tight.",
+         "TLA+ supremum function checked against Enc; TLC validates per-type declared sizes and witnesses"),
+ "C17": ("5.C17", "Dyn.tla: JsonOf(shape, value) models serde_json::to_value for the serde data model (key-sorted objects, exact integer limbs, float bit patterns) and Unambiguous is the scope predicate; for every in-scope (shape, value) TLC requires dyn-encode(json) = Enc(shape, value) = static bytes and dyn-decode(static bytes) = JsonOf; the real to_value is cross-checked against JsonOf (tool error on disagreement).",
+         "TLA+ model of the JSON form + scope predicate; TLC validates recorded static/dynamic/JSON triples"),
+ "C18": ("5.C18", "Totality as trace property: no panic/crash event is accepted by any action; dynamic-decoding allocation <= 256*(input+schema size+16); accepted encodings must decode, re-encode identically and be accepted exactly by Wire!Dec over ShapeOf(schema). Random schema trees over every node kind x type-correct/near-miss/unrelated JSON and valid/mutated/adversarial bytes. One known finding (zero-width sequence elements) is listed in known_findings.json with a witness.",
+         "trace validation with TLC of recorded encode/decode/re-encode behaviours and measured allocation"),
 }
 PENDING = "check under construction in this session (see DESIGN.md section 8 for the order of construction)"
 m = {
